@@ -134,6 +134,27 @@ def scanAllLoop (call : String) (C W : Int) : Nat → Ascii → Sq → List Stri
     else if !(st == .ok || st == .eod) then acc.reverse
     else scanAllLoop call C W fuel a (if st == .eod then sq.reuse else sq) acc
 
+/-- tokens of a key / GDF file as `esl_fileparser` delivers them: lines split at `\n`, `#` starts a comment, blanks separate tokens -/
+def fileTokens (txt : List UInt8) : List (List (List UInt8)) :=
+  let lines := (txt.splitOn (10 : UInt8))
+  (lines.map fun ln =>
+    let ln := ln.takeWhile (· != 35)
+    (ln.splitOn (32 : UInt8)).flatMap (fun w => (w.splitOn (9 : UInt8))) |>.map (fun w => w.filter (· != 13)) |>.filter (fun w => !w.isEmpty)).filter (fun l => !l.isEmpty)
+
+def natOfDigits (w : List UInt8) : Int := (w.foldl (fun acc c => if 48 ≤ c && c ≤ 57 then acc * 10 + (c.toNat - 48) else acc) 0 : Nat)
+
+/-- `onefetch_subseq()` of esl-sfetch -/
+def toolSubseq (a : Ascii) (ssi : Ssi) (newname : Option Bytes) (k : Bytes) (gs ge : Int) : Ascii × Option (List UInt8) :=
+  let (st0, en, rc) := if ge != 0 && gs > ge then (ge, gs, true) else (gs, ge, false)
+  let (a, sq, st) := fetchSubseq a ssi (freshSq 0) k st0 en
+  if st != .ok then (a, none) else
+  let nm := match newname with
+    | some n => n
+    | none => k ++ #[47] ++ decBytes gs ++ #[45] ++ decBytes (if ge == 0 then sq.L else ge)
+  let sq := { sq with name := nm }
+  let (sq, stR, _) := if rc then revcomp sq else (sq, Status.ok, false)
+  if stR != .ok then (a, none) else (a, some (writeFasta sq))
+
 def withA (s : DS) (f : Ascii → DS × String) : DS × String :=
   if s.unmodelled then (s, "unmodelled") else
   if s.dead then (s, "dead") else
@@ -263,6 +284,41 @@ def step (s : DS) (line : String) : DS × String :=
           let (a, st, out) := echo a sq
           if st != .ok then ({ s with a := some a, dead := true }, "tool-fatal") else
           ({ s with a := some a }, s!"ok hex={hexB out}")
+    | _, _ => (s, if s.unmodelled then "unmodelled" else "bad-op")
+  | "toolmulti" :: _ =>
+    match argHex? ws "text", s.ssi with
+    | some txt, some ssi => withA s fun a =>
+        let keys := (fileTokens txt).filterMap List.head?
+        let r := keys.foldl (fun (acc : Ascii × Option (List UInt8)) k =>
+          match acc with
+          | (a, none) => (a, none)
+          | (a, some out) =>
+            match ssi.findName k.toArray with
+            | none => (a, none)
+            | some e =>
+              let (a, st) := position a e.roff.toNat
+              if st != .ok then (a, none) else
+              let (a, sq, st) := read a (freshSq 0)
+              if st != .ok then (a, none) else
+              let (a, st, bytes) := echo a sq
+              if st != .ok then (a, none) else (a, some (out ++ bytes.toList))) (a, some [])
+        match r with
+        | (a, some out) => ({ s with a := some a }, s!"ok hex={hexOrDash out}")
+        | (a, none) => ({ s with a := some a, dead := true }, "tool-fatal")
+    | _, _ => (s, if s.unmodelled then "unmodelled" else "bad-op")
+  | "toolmultisub" :: _ =>
+    match argHex? ws "text", s.ssi with
+    | some txt, some ssi => withA s fun a =>
+        let r := (fileTokens txt).foldl (fun (acc : Ascii × Option (List UInt8)) toks =>
+          match acc, toks with
+          | (a, none), _ => (a, none)
+          | (a, some out), [nn, s1, s2, src] =>
+            let (a, r) := toolSubseq a ssi (some nn.toArray) src.toArray (natOfDigits s1) (natOfDigits s2)
+            (a, r.map (out ++ ·))
+          | (a, some _), _ => (a, none)) (a, some [])
+        match r with
+        | (a, some out) => ({ s with a := some a }, s!"ok hex={hexOrDash out}")
+        | (a, none) => ({ s with a := some a, dead := true }, "tool-fatal")
     | _, _ => (s, if s.unmodelled then "unmodelled" else "bad-op")
   | "toolsub" :: _ =>
     -- `onefetch_subseq` of esl-sfetch: coordinates with start > end request the reverse complement
